@@ -95,6 +95,7 @@ struct Parsed
     std::vector<Token> tokens;
     bool condUnknownType = false; // %{if-xyz}
     bool condNested = false;      // %{if-a} inside an open %{if-b}
+    bool specUndefined = false;   // a candidate format spec that only a lenient number parser would accept (white space, sign)
 };
 
 inline int typeIndexByName(const QString &n)
@@ -138,6 +139,19 @@ inline Parsed tokenize(const QString &pat)
                     t.hasSpec = true;
                     t.spec = s;
                     body = body.left(colon);
+                } else {
+                    // "10 !", "+5!", "<\n7": a width written with white space or a sign is not in the documented grammar
+                    // ([fill][align]width[!], width a positive decimal); whether a number parser tolerates it is not defined
+                    QString lax;
+                    const QString cand = body.mid(colon + 1);
+                    for (int k = 0; k < cand.size(); k++) {
+                        const QChar ch = cand[k];
+                        const bool fillPos = k == 0 && cand.size() >= 2 && isAlign(cand[1]); // a fill character may be anything
+                        if (!fillPos && (ch.isSpace() || ch == QChar('+'))) continue;
+                        lax += ch;
+                    }
+                    Spec s2;
+                    if (lax != cand && parseSpec(lax, &s2)) out.specUndefined = true;
                 }
             }
             i = close + 1;
@@ -265,6 +279,7 @@ inline Result evaluate(const QString &pattern, const Message &m)
     std::vector<const Token *> act;
     for (auto &t : p.tokens)
         if (t.cond < 0 || t.cond == m.typeIdx) act.push_back(&t);
+    if (p.specUndefined) { r.grade = Skip; r.note = "width with white space or sign: not defined by the documentation"; return r; }
     if (p.condNested || p.condUnknownType) { r.grade = Skip; r.note = "nested or unknown conditional: not defined by the documentation"; return r; }
 
     struct Piece
@@ -453,6 +468,7 @@ inline bool boundedMatchMasked(const QString &a, const QString &full, const QVec
 {
     if (mask.size() != full.size()) return boundedMatch(a, full, budget, keepPrefix, keepSuffixFrom);
     if (!boundedMatch(a, full, budget, keepPrefix, keepSuffixFrom)) return false;
+    if (qint64(full.size()) * a.size() > 4000000) return true; // huge padded outputs: the quadratic refinement is skipped (the unmasked obligations above were checked)
     keepPrefix = qMin(keepPrefix, full.size());
     keepSuffixFrom = qMin(qMax(keepSuffixFrom, keepPrefix), full.size());
     const int n = full.size(), m = a.size();
